@@ -114,6 +114,9 @@ func c09Datasets(tier string) []c09Dataset {
 		// string-kind fields whose text looks like another kind (given as quoted JSON strings)
 		{"SET", "k1", "g", "FIELD", "qnum", `"123"`, "FIELD", "qtrue", `"true"`, "FIELD", "qobj", `"{\"a\":1}"`, "FIELD", "qpad", `" padded "`, "FIELD", "qnull", `"null"`, "FIELD", "qempty", `""`, "POINT", "1", "2"},
 		w("FSET k1 a later 42"),
+		// field names with surrounding blanks (a name is trimmed when it is stored)
+		{"SET", "k1", "h", "FIELD", " padded", "1", "FIELD", " z", "5", "FIELD", "lat ", "6", "POINT", "1", "2"},
+		{"FSET", "k1", "a", " lon", "7"},
 	}})
 	ds = append(ds, c09Dataset{Name: "deadlines", Cmds: [][]string{
 		w("SET k1 soon EX 0.05 POINT 1 2"), w("SET k1 sec EX 1 POINT 1 2"), w("SET k1 far EX 100 POINT 1 2"), w("SET k1 str EX 100 STRING v"),
